@@ -98,9 +98,7 @@ func (i *interpreter) decideN(n int, cond func(k int) *smt.Term) int {
 		k := m.Prefix[m.pos]
 		m.pos++
 		m.Trace = append(m.Trace, Decision{Choice: k, Arity: n, Forced: true})
-		if err := m.S.Assert(cond(k)); err != nil {
-			unsup("%v", err)
-		}
+		m.assertPC(cond(k))
 		return k
 	}
 	// new decision: find feasible alternatives
@@ -141,9 +139,7 @@ func (i *interpreter) decideN(n int, cond func(k int) *smt.Term) int {
 	m.pos++
 	// keep Prefix aligned: extend it so later decisions append after
 	m.Prefix = append(m.Prefix, pick)
-	if err := m.S.Assert(cond(pick)); err != nil {
-		unsup("%v", err)
-	}
+	m.assertPC(cond(pick))
 	return pick
 }
 
@@ -204,16 +200,22 @@ func (i *interpreter) doAssume(c value) {
 				m.Unconfirmed = true
 			}
 		}
-		if err := m.S.Assert(c.t); err != nil {
-			unsup("%v", err)
-		}
+		m.assertPC(c.t)
 	}
+}
+
+// assertPC adds t to the path condition and refines intervals from it.
+func (m *Machine) assertPC(t *smt.Term) {
+	if err := m.S.Assert(t); err != nil {
+		unsup("%v", err)
+	}
+	m.C.Refine(t)
 }
 
 // violation ends the path after recording a violated assertion.
 type violation struct{ id string }
 
-func (i *interpreter) doAssert(id string, c value, pos string) {
+func (i *interpreter) doAssert(id string, c value, pos string, hunt bool) {
 	m := i.m
 	rec := AssertRec{ID: id, Pos: pos}
 	switch c := c.(type) {
@@ -257,9 +259,7 @@ func (i *interpreter) doAssert(id string, c value, pos string) {
 			}
 			m.Asserts = append(m.Asserts, rec)
 			if rec.Result == "discharged" {
-				if err := m.S.Assert(c.t); err != nil {
-					unsup("%v", err)
-				}
+				m.assertPC(c.t)
 				return
 			}
 			panic(pathEnd{"assert undecided"})
@@ -269,6 +269,12 @@ func (i *interpreter) doAssert(id string, c value, pos string) {
 			m.Asserts = append(m.Asserts, rec)
 			panic(violation{id})
 		default:
+			if hunt {
+				rec.Result = "hunt-unknown"
+				rec.Why = why
+				m.Asserts = append(m.Asserts, rec)
+				return
+			}
 			rec.Result = "unknown"
 			rec.Why = why
 			m.Asserts = append(m.Asserts, rec)
